@@ -136,7 +136,8 @@ class Obs:
         a call that modifies one in place breaks every later use.  Their values are snapshotted before the call and
         compared afterwards (clause `argument-untouched`; labels of a DataFrame are not part of the snapshot)."""
         self.transitions += 1
-        snaps = _snapshot_args(a, k) if ARG_SNAPSHOT else None
+        outs = k.pop("_outputs", ())  # positional indices of documented OUTPUT buffers (filled in place by design)
+        snaps = [t for t in _snapshot_args(a, k) if not any(t[0] == f"#{i}" or t[0].startswith(f"#{i}[") for i in outs)] if ARG_SNAPSHOT else None
         try:
             r = fn(*a, **k)
         except HarnessError:
